@@ -237,9 +237,34 @@ def r5_no_ordered_dedup_of_types(ctx, F):
     ctx.ok("C16.R5", "no-ordered-collection-of-types", "no BTreeSet/BTreeMap/dedup_by over TyBasic/Ty/TyStarlarkValue (%d found)" % n)
 
 
+def r7_type_identity(ctx, F):
+    """a record / enum type denotes exactly the instances created by THAT type: the id that instances carry and the
+    matcher compares must be unique per created type. An id derived from the call site alone (file + span of the
+    `record(...)` call) is shared by every type the same expression creates (`def mk(t): return record(x=t)`), so an
+    instance of one is accepted where the other is required."""
+    nat = {}
+    for n in natives(F):
+        if n.impl is not None:
+            nat[n.impl.uid] = n.name
+    k = 0
+    for f, c in callers(F, r"values::types::type_instance_id::TypeInstanceId::from_def_site$"):
+        k += 1
+        t = top_fn(F, f)
+        who = nat.get(t.uid) or short_fn(t.qpath)
+        ctx.bad("C16.R7", "type-id-from-call-site:" + who,
+                "`%s` derives the identity of the type it creates from its call site only "
+                "(TypeInstanceId::from_def_site): two types created by evaluating the same expression twice share the "
+                "id, and isinstance / annotations accept instances of one as instances of the other" % who, fn=f, line=c.line)
+    ctx.note("C16.R7 inspected %d uses of TypeInstanceId::from_def_site" % k)
+    gens = [f for f, c in callers(F, r"values::types::type_instance_id::TypeInstanceId::(r#gen|gen|from_identity)$")]
+    ctx.check(k + len(gens) >= 2, "C16.R7", "type-id-sources", "type ids come from from_def_site / from_identity / gen",
+              "anchor-missing: no constructor of TypeInstanceId is called")
+
+
 def run(ctx):
     F = ctx.facts("core")
     r3_star_params(ctx, F)
+    r7_type_identity(ctx, F)
     r5_no_ordered_dedup_of_types(ctx, F)
     # the annotation of an assignment survives the re-optimisation on freeze (shared with C02.R10)
     from rules.C02 import r10_optimize_keeps_components
